@@ -191,6 +191,18 @@ class RFrame:
             return _Callable(lambda *a, **k: self)
         if name == "astype":
             return _Callable(lambda *a, **k: self)
+        if name == "assign":
+            def assign(**kw):
+                cells = OrderedDict(self.cells)
+                for k, v in kw.items():
+                    cells[k] = as_cell(interp, v, node)
+                return self.derive(cells=cells)
+            return _Callable(assign)
+        if name in ("notna", "notnull", "isna", "isnull"):
+            def fm(*a, **k):
+                neg = name in ("isna", "isnull")
+                return _MaskFrame(self, OrderedDict((c, (v.is_nan() if neg else _not(v.is_nan()))) for c, v in self.cells.items()))
+            return _Callable(fm)
         if name in ("tz_convert", "tz_localize"):
             def tz(arg=None, *a, **k):
                 return self.derive(index_tag=f"{name}({arg!r}) of {self.index_tag}")
@@ -237,6 +249,31 @@ class RFrame:
 
     def sym_len(self, interp, node):
         raise Unsupported("len() of a frame (row-wise model has no row count)", node)
+
+
+class _MaskFrame:
+    """frame of booleans (df.notna())"""
+
+    def __init__(self, frame, conds):
+        self.frame = frame
+        self.conds = conds
+
+    def sym_getattr(self, interp, name, node):
+        if name in ("all", "any"):
+            def agg(*a, axis=0, **k):
+                if axis not in (1, "columns"):
+                    raise Unsupported("column-wise all()/any() of a boolean frame", node)
+                c = _and(*self.conds.values()) if name == "all" else _or(*self.conds.values())
+                return RMask(self.frame, c, f"{name}(axis=1)")
+            return _Callable(agg)
+        raise Unsupported(f"boolean DataFrame.{name}", node)
+
+    def sym_getitem(self, interp, key, node):
+        if isinstance(key, str):
+            return RMask(self.frame, self.conds[key], key)
+        if isinstance(key, list):
+            return _MaskFrame(self.frame, OrderedDict((k, self.conds[k]) for k in key))
+        raise Unsupported("boolean frame subscript", node)
 
 
 class _Columns(list):
@@ -389,6 +426,15 @@ class RSeries:
                     return RSeries(self.frame, Cell(c.kind, z3.If(c.val, 1, 0)), self.name)
                 return self
             return _Callable(astype)
+        if name == "clip":
+            def clip(lower=None, upper=None, **k):
+                v = c.val
+                if lower is not None:
+                    v = z3.If(to_real(v) < to_real(lower), to_real(lower), to_real(v))
+                if upper is not None:
+                    v = z3.If(to_real(v) > to_real(upper), to_real(upper), to_real(v))
+                return RSeries(self.frame, Cell(c.kind, v), self.name)
+            return _Callable(clip)
         if name == "reindex":
             def reindex(idx, *a, fill_value=None, **k):
                 if not isinstance(idx, RIndex):
@@ -693,6 +739,27 @@ def install():
             run._add(z3.And(k >= 0, k <= 3))
             cells[c] = Cell(k, v)
         return RFrame(z3.IntVal(1), cells, {"month": month, "dow": dow, "hour": hour}, False, "local", label=kwargs.get("label", "input"))
+
+    @libmodels.api("row_twin")
+    def _row_twin(interp, args, kwargs, node, frame):
+        """a second input frame over the SAME universe whose listed columns have independent symbolic cells (the other
+        run of a non-interference argument)"""
+        src, cols = args
+        run = interp.run
+        cells = OrderedDict(src.cells)
+        for c in cols:
+            if c in cells:
+                k = run.input(f"row2.{c}.kind", z3.IntSort())
+                v = run.input(f"row2.{c}", z3.RealSort())
+                run._add(z3.And(k >= 0, k <= 3))
+                cells[c] = Cell(k, v)
+        return RFrame(z3.IntVal(1), cells, src.universe, False, "local", label="input2")
+
+    @libmodels.api("row_frame_drop")
+    def _row_frame_drop(interp, args, kwargs, node, frame):
+        src, col = args
+        cells = OrderedDict((k, v) for k, v in src.cells.items() if k != col)
+        return RFrame(z3.IntVal(1), cells, src.universe, False, "local", label="input3")
 
     @libmodels.api("cell_kind")
     def _cell_kind(interp, args, kwargs, node, frame):
